@@ -188,11 +188,6 @@ def parseTree (s : String) : Option R :=
 
 /-! ### the static domain -/
 
-/-- executable `Text.Inv` -/
-def invB (t : T) : Bool :=
-  t.length == (t.plain.length : Int) && t.plain.all (fun c => !isStripCode c)
-    && t.spans.all (fun sp => decide (0 ≤ sp.start) && decide (sp.start ≤ sp.stop) && decide (sp.stop ≤ t.length))
-
 def titleOk (t : List Char) : Bool := (t.map (fun c => if c == '\n' then ' ' else c)).all simpleChar
 
 def optTextOk (t : Option T) : Bool := match t with | none => true | some t => invB t
